@@ -926,6 +926,7 @@ func (x *Unit) execTypeSwitch(st *State, s *ast.TypeSwitchStmt, fl *flow, label 
 				a.env[o] = Val{x.u.Unbox(IfaceVal(v.T), x.u.SortOf(single)), single}
 				x.assume(a, x.typeInv(a, a.env[o], 1))
 				x.assumeNoTypedNil(a, a.env[o])
+				x.reflectLenFact(v, a.env[o], c)
 			} else {
 				a.env[o] = Val{v.T, o.Type()}
 			}
